@@ -97,6 +97,18 @@ def mapf(id, sig, c_sig, **kw):
         if k in kw: kw[k] = SUB_MAP + kw[k]
     if 'calls' in kw: c = dict(MAPC); c.update(kw['calls']); kw['calls'] = c
     d.update(kw); return d
+def retry_cut(name):
+    """unit-local Route X cut of a `retry:` ... `goto retry;` loop (the engine's cut_loops handles for/while/do only):
+       label -> loop head (base assert, havoc, assume invariant); every backward goto -> step assert + end of path."""
+    def f(s, lw):
+        i = s.index('retry: ;')
+        s = s[:i] + 'retry: ; XV_LOOP_BASE(%s); XV_LOOP_HAVOC(%s); XV_LOOP_ASSUME(%s);' % (name, name, name) + s[i + len('retry: ;'):]
+        body = s[i:]
+        s, n = re.subn(r'\bgoto retry;', '{ XV_LOOP_STEP(%s); XV_CUT_END(); }' % name, s)
+        lw.fire('cut_goto', n); lw.fire('cut_loop')
+        lw._cut_bodies = getattr(lw, '_cut_bodies', {}); lw._cut_bodies[name] = body
+        return s
+    return f
 UNL_DECL = 'struct unlocker unlocker;'
 def do_extract_post(s, lw):
     s = throw_checks(s, lw, '{ XV_RET; }', conds=['TR_compare_key'])
@@ -154,6 +166,14 @@ MAP_SOURCES = [
        py_post=do_goe_post,
        must_fire={'subst:unlocker_decl': 1, 'subst:goto_retry': 1, 'try_catch': 1, 'rethrow': 1, 'hoist_arg:XV_FACTORY': 2, 'throw_check:TR_store_item': 2,
                   'throw_check:vhm_grow': 1, 'hoist_cond:TR_compare_key': 2, 'call:callback': 4, 'method:unlock': 4, 'method:disable': 1}),
+  mapf('try_get_value', r'bool vyukov_hash_map<Key, Value, Policies...>::try_get_value\(const key_type& key, accessor& result\) const',
+       'static _Bool vhm_try_get_value(struct vhm* self, kkey_t key, accessor* result_p)',
+       subst=[(r'\bretry:', 'retry: ;', 'label')], calls={'acquire_guard': 'ACQUIRE_GUARD'}, post_subst=ref_params('result'),
+       must_fire={'A_LOAD': 7, 'subst:traits_call': 6, 'call:acquire_guard': 1, 'method:version': 8, 'method:delete_marker': 1, 'ref:result': 2}),
+  mapf('try_get_value_int', r'bool vyukov_hash_map<Key, Value, Policies...>::try_get_value\(const key_type& key, accessor& result\) const',
+       'static _Bool vhm_try_get_value_int(struct vhm* self, kkey_t key, accessor* result_p)',
+       subst=[(r'\bretry:', 'retry: ;', 'label')], calls={'acquire_guard': 'ACQUIRE_GUARD'}, post_subst=ref_params('result'), cut_loops={1: 'CHAIN'}, py_post=retry_cut('RETRY'),
+       must_fire={'A_LOAD': 7, 'cut_goto': 4, 'cut_loop': 2}),
 ]
 
 def uw(L, **loops):
@@ -170,13 +190,24 @@ def w_run(id, entry, L, nt, tiers, fn_loops, **kw):
 def ex_loops(L): return {'vhm_do_extract_real__0': 1, 'vhm_do_extract_real__1': 1, 'vhm_do_extract_real__2': 4, 'vhm_do_extract_real__3': L + 2}
 def em_loops(L): return {'vhm_do_get_or_emplace__0': 4, 'vhm_do_get_or_emplace__1': L + 2, 'vhm_lock_bucket_real__0': 1}
 RUNS = []
-for L, tiers in ((1, ['quick']), (2, ['thorough']), (3, ['thorough'])):
+Q, T, QT = ['quick'], ['thorough'], ['quick', 'thorough']
+for L in (1, 2, 3):
     for nt in (0, 1):
         sfx = ('n' if nt else 't') + str(L)
-        RUNS.append(w_run('do_extract_' + sfx, 'h_do_extract', L, nt, tiers, ex_loops(L)))
-        RUNS.append(w_run('erase_' + sfx, 'h_erase', L, nt, tiers, ex_loops(L)))
-        RUNS.append(w_run('extract_' + sfx, 'h_extract', L, nt, tiers, ex_loops(L)))
-        RUNS.append(w_run('emplace_' + sfx, 'h_emplace', L, nt, tiers, em_loops(L)))
+        RUNS.append(w_run('do_extract_' + sfx, 'h_do_extract', L, nt, QT if L == 2 else T, ex_loops(L)))
+        RUNS.append(w_run('erase_' + sfx, 'h_erase', L, nt, QT if L == 1 else T, ex_loops(L)))
+        RUNS.append(w_run('extract_' + sfx, 'h_extract', L, nt, QT if L == 1 else T, ex_loops(L)))
+        RUNS.append(w_run('emplace_' + sfx, 'h_emplace', L, nt, QT if L == 1 else T, em_loops(L)))
+RUNS.append(w_run('alloc', 'h_alloc', 2, 0, QT, {'vhm_allocate_extension_item_real__0': 3, 'vhm_allocate_extension_item_real__1': 3, 'eb_acquire_lock__0': 1, 'eb_acquire_lock__1': 1}))
+RUNS.append(w_run('free', 'h_free', 2, 0, QT, {'eb_acquire_lock__0': 1, 'eb_acquire_lock__1': 1}))
+for nt in (0, 1):
+    sfx = 'n' if nt else 't'
+    RUNS.append(dict(w_run('get_int_' + sfx, 'h_get_int', 1, nt, QT, {'vhm_try_get_value_int__0': 4}), mode='INT', cls='unbounded',
+                     note='retry loop and extension-chain loop cut by invariants RETRY / CHAIN; environment = any writers (rely: type invariant only); %s storage' % ('NONTRIVIAL' if nt else 'TRIVIAL')))
+    for L, tiers in ((2, QT), (3, T)):
+        RUNS.append(dict(w_run('get_solo_%s%d' % (sfx, L), 'h_get_seq', L, nt, tiers, {'vhm_try_get_value__0': 1, 'vhm_try_get_value__2': 1, 'vhm_try_get_value__3': 1, 'vhm_try_get_value__5': 1, 'vhm_try_get_value__1': 4, 'vhm_try_get_value__4': L + 1}),
+                         mode='SOLO', unwind_obligation='vhm.get.terminates'))
+RUNS.append(w_run('grow_t', 'h_grow', 1, 0, ['quick', 'thorough'], {'vhm_grow_real__0': 1}))
 
 UNIT = dict(
   title='vyukov_hash_map: per-bucket map refinement of emplace/extract/erase, extension items, grow, lock-free reader (C10)',
@@ -197,11 +228,20 @@ UNIT = dict(
     'vhm.emplace.iff_absent': dict(deciding=True, text='do_get_or_emplace returns true iff the key was absent; then the key maps to the value the factory produced (called exactly once), every other key keeps its value, Inv_B holds and the callback gets an accessor to the new element; otherwise nothing changes and the callback gets the existing element; an exception leaves the map unchanged'),
     'vhm.emplace.pool': dict(deciding=True, text='an insertion consumes exactly one free extension item iff the bucket array is full; on an exception the item is back in its free list'),
     'vhm.emplace.retry_state': dict(deciding=True, text='when no extension item is free the operation calls grow once with the locked bucket and its state, has changed nothing, and does not write the old bucket after grow released it (unlocker disabled) before retrying'),
+    'vhm.alloc_ext.pops_free': dict(deciding=True, text='allocate_extension_item returns null iff every free list of the block is empty; otherwise it pops the head of the first non-empty list in probe order (hash + idx) & (count - 1), leaves every other item and list unchanged and releases the extension bucket lock'),
+    'vhm.free_ext.own_bucket': dict(deciding=True, text='free_extension_item finds the extension bucket that contains the item by address arithmetic (for any base address aligned as allocate_block aligns it) and pushes the item on that free list only; lock released'),
+    'vhm.grow.resize_lock': dict(deciding=True, text='grow takes the resize lock, releases the bucket lock before do_grow runs, calls do_grow exactly once when it got the resize lock, and the resize lock is free afterwards'),
+    'vhm.get.validated': dict(deciding=True, text='[INT] try_get_value returns true only with the value it loaded from the value cell of an item whose key cell (and, NONTRIVIAL, whose node key) matched, and only if a state load made after the value load shows the version of this iteration\'s first state load and a delete marker different from that slot; extension items are reached through pointers loaded in the same iteration'),
+    'vhm.get.terminates': dict(deciding=True, text='[SOLO] with a stable bucket (no interference) try_get_value returns within the shape bound: the retry loop is not re-entered, the array loop makes <= 3 and the chain loop <= chain-length iterations (unwinding assertions)'),
+    'vhm.get.seq_lookup': dict(deciding=True, text='without interference try_get_value returns true with the stored value iff the key is in the bucket (a slot under a delete marker is skipped), whether or not a writer holds the lock; it writes nothing'),
+    'vhm.get.absent_validated': dict(deciding=True, text='[INT] try_get_value returns false only directly after a state load that still shows the version of the iteration\'s first state load, having examined every slot occupied at that load and followed the chain to null; the accessor is untouched'),
+    'vhm.sync.acquire': dict(deciding=True, text='sync precondition: the first state load of an iteration, the value loads and the head/next loads of try_get_value are acquire-or-stronger'),
     'vhm.erase.retires_only_removed': dict(deciding=True, text='erase/extract retire a heap node iff they removed an item, and then exactly the node of the removed item, once; a guard is never reclaimed empty'),
     'vhm.ops.unlock': dict(deciding=True, text='every exit (exceptional ones included) leaves the bucket lock clear and the lock is released exactly once'),
     'vhm.ops.frame': dict(deciding=True, text='an operation that does not find/insert its key changes nothing; no operation touches another bucket'),
     'vhm.remove.version_bumped': dict(deciding=True, text='writer guarantee: a removal ends with the version advanced; occupied array slots are written only while the delete marker names them; a marker is cleared and the item count shrinks only together with a version bump; a linked extension item is not written before the version moved'),
     'vhm.sync.release': dict(deciding=True, text='sync precondition: state stores that change version or item count, value stores into marked slots and head stores are release-or-stronger'),
   },
+  loop_obligation={'RETRY': 'vhm.get.validated', 'CHAIN': 'vhm.get.validated'},
   canaries=[],
 )
